@@ -226,6 +226,24 @@ class Ctx:
                         self.broken.append(rec)
                     self.say(f"[coq] {f}: FAILED ({r['s']:.1f}s)\n{err[-1200:]}")
 
+    def coqchk(self, modname, timeout=1500):
+        """thorough tier: re-check the compiled property file and everything it depends on with the
+        independent checker and record the axioms it reports"""
+        t0 = time.time()
+        try:
+            p = subprocess.run(['coqchk', '-silent', '-o'] + self.coq_args() + [f'AhrsProps.{modname}'],
+                               capture_output=True, text=True, timeout=timeout, cwd=self.build)
+            out = p.stdout + p.stderr
+            rc = p.returncode
+        except subprocess.TimeoutExpired:
+            out, rc = 'TIMEOUT', 124
+        ax = re.findall(r'^\s{4}(\S+)\s*$', out.split('* Axioms:')[1].split('* Constants')[0], flags=re.M) if '* Axioms:' in out else []
+        self.coqchk_result = {'rc': rc, 'axioms': ax, 's': round(time.time() - t0, 1),
+                              'type_in_type': '<none>' in out.split('type-in-type:')[1][:20] if 'type-in-type:' in out else None}
+        self.say(f"[coqchk] AhrsProps.{modname}: rc={rc} axioms={ax} in {time.time()-t0:.0f}s")
+        if rc != 0:
+            self.broken.append({'kind': 'proof', 'file': modname, 'error': 'coqchk failed', 'detail': out[-1500:]})
+
     def _axioms(self, f, out):
         # blocks printed by Print Assumptions: "Axioms:" then entries starting in column 0
         names = set()
@@ -487,6 +505,7 @@ class Ctx:
                 'suppressed_by_known_findings': suppressed,
                 'broken': [{k: v for k, v in b.items() if k != 'detail'} for b in self.broken[:10]],
                 'partial': partial,
+                'coqchk': getattr(self, 'coqchk_result', None),
             },
             'assumptions': list(assumptions),
             'wall_s': round(wall, 2),
